@@ -54,8 +54,8 @@ def regen_facts():
 
 def regen_trans():
     """Go-to-Lean translator (go/translate) -> lean/Pw/Generated/Trans.lean (pkg/buffer) and TransCopy.lean
-    (copy.go of the root package) as executable Lean definitions, re-derived from the working tree on every
-    run (each file only rewritten when changed)."""
+    (copy.go of the root package) and TransError.lean (the ErrorResponse builder of error.go) as executable
+    Lean definitions, re-derived from the working tree on every run (each file only rewritten when changed)."""
     exe = os.path.join(BIN, "pwtranslate")
     r = sh(["go", "build", "-o", exe, "."], cwd=TRANSLATE_SRC, env=GOENV)
     if r.returncode != 0:
@@ -69,6 +69,9 @@ def regen_trans():
         ([exe, "-copy", REPO], "TransCopy.lean",
          "/- GENERATED: translation failed -/\nimport Pw.Generated.Trans\nimport Pw.Go.RtCopy\nnamespace Pw.TransCopy\n"
          "def untranslatable : List String := [\"translator failed\"]\nend Pw.TransCopy\n"),
+        ([exe, "-error", REPO], "TransError.lean",
+         "/- GENERATED: translation failed -/\nimport Pw.Generated.Trans\nimport Pw.Go.RtError\nnamespace Pw.TransError\n"
+         "def untranslatable : List String := [\"translator failed\"]\nend Pw.TransError\n"),
     ]
     ok, msgs = True, []
     for cmd, name, stub in jobs:
@@ -243,11 +246,29 @@ def run_cases(cases):
             return c + " || " + r
         return l
     dshards = shard(lines, NCPU)
+    def big_stack():
+        # results of a changed library can be huge (millions of list elements): give the driver a deep stack
+        import resource
+        try:
+            resource.setrlimit(resource.RLIMIT_STACK, (1 << 30, resource.RLIM_INFINITY))
+        except (ValueError, OSError):
+            pass
+
     def drive(sh_lines):
-        p = subprocess.run([drv], input="\n".join(for_driver(l) for l in sh_lines) + "\n", stdout=subprocess.PIPE, stderr=subprocess.PIPE, text=True)
-        if p.returncode != 0:
-            raise RuntimeError("pwdriver failed: " + p.stderr[-500:])
-        return [l for l in p.stdout.split("\n") if l]
+        p = subprocess.run([drv], input="\n".join(for_driver(l) for l in sh_lines) + "\n", stdout=subprocess.PIPE,
+                           stderr=subprocess.PIPE, text=True, preexec_fn=big_stack)
+        outl = [l for l in p.stdout.split("\n") if l]
+        if p.returncode == 0 and len(outl) == len(sh_lines):
+            return outl
+        # the driver died on one of these lines (stack overflow / out of memory on a result no unchanged tree
+        # produces): find it by bisection; such a case counts as a model/implementation disagreement whose
+        # oracle could not be evaluated
+        if len(sh_lines) == 1:
+            cid = kv(sh_lines[0].split(" || ", 1)[0]).get("id", "?")
+            return ["id=%s status=diff wf=1 oracle=ok why=driver-could-not-evaluate-this-result:%s" % (
+                cid, (p.stderr.strip().split("\n") or ["?"])[-1].replace(" ", "-")[:80])]
+        mid = len(sh_lines) // 2
+        return drive(sh_lines[:mid]) + drive(sh_lines[mid:])
     with ThreadPoolExecutor(max_workers=len(dshards)) as ex:
         dparts = list(ex.map(drive, dshards))
     dlines = [l for p in dparts for l in p]
